@@ -489,9 +489,6 @@ func synAvcPPS(f *fw, id, spsID uint64, sps avcSPSInfo) avcPPSInfo {
 	p.entropy = f.flag("entropy_coding_mode_flag", 50)
 	p.bottom = f.tool("bottom_field_pic_order_in_frame_present_flag", 40)
 	p.nsg = f.ue("num_slice_groups_minus1", 7, 0, 0, 0, 1, 2, 7)
-	if f.toolsOn && p.nsg == 0 && f.r.Intn(2) == 0 {
-		// (not a field: the tool bias also makes slice groups frequent)
-	}
 	if p.nsg > 0 {
 		p.mapType = f.ue("slice_group_map_type", 6, 0, 1, 2, 3, 4, 5, 6)
 		switch p.mapType {
@@ -1762,7 +1759,15 @@ func (s *structCtx) pickID(r *hx.Rng, kind string) (uint32, bool) {
 
 const unitMaxBits = 255 * 8 // pipeline units are clipped to 255 bytes
 
+var lastModes []int // modes drawn since the last reset (statistics)
+
 func pickMode(r *hx.Rng, pipeline bool) int {
+	m := pickMode0(r, pipeline)
+	lastModes = append(lastModes, m)
+	return m
+}
+
+func pickMode0(r *hx.Rng, pipeline bool) int {
 	k := r.Intn(100)
 	if pipeline {
 		switch {
@@ -2089,11 +2094,6 @@ func init() {
 	}
 }
 
-func structStatsExtra(t tally, r *hx.Rng, n int, verbose bool) {}
-
-var _ = binary.BigEndian
-var _ = strings.Index
-
 // ---------------------------------------------------------------- wiring into casesFor (search.go)
 
 // structShare: the multi-step targets get a larger share of the per-target budget.
@@ -2101,6 +2101,8 @@ func structShare(name string) int {
 	switch name {
 	case "avc.ParsePSAndSlice", "hevc.ParsePSAndSlice":
 		return 6
+	case "avc.ParseSPSAndSEI", "hevc.ParseSPSAndSEI", "avc.DecConfRecAndSlice", "hevc.DecConfRecAndSlice":
+		return 2
 	}
 	return 1
 }
@@ -2120,6 +2122,338 @@ func structCase(r *hx.Rng, name string) (tcase, bool) {
 			return tcase{}, false
 		}
 		return tcase{name, genStructUnit(r, name), argsFor(r, name)}, true
+	case "avc.ParseSPSAndSEI", "hevc.ParseSPSAndSEI":
+		return tcase{name, genStructSPSAndSEI(r, name[:strings.Index(name, ".")]), 0}, true
+	case "avc.DecConfRecAndSlice", "hevc.DecConfRecAndSlice":
+		return tcase{name, genStructConfRecAndSlice(r, name[:strings.Index(name, ".")]), 0}, true
 	}
 	return tcase{}, false
+}
+
+// ---------------------------------------------------------------- SPS -> SEI
+
+// synSEI writes an SEI NAL unit; the pic_timing payload (type 1) is laid out with the lengths that the
+// SEI parser takes from the SPS just written (VUI / HRD).
+func synSEI(f *fw, codec string, a avcSPSInfo, h hevcSPSInfo) {
+	if codec == "avc" {
+		f.raw(0x06, 8)
+	} else {
+		f.raw(uint64(f.r.Pick(0x4e01, 0x4e01, 0x5001)), 16)
+	}
+	k := f.r.Range(1, 3)
+	for m := 0; m < k; m++ {
+		typ := f.r.Pick(1, 1, 1, 1, 136, 137, 144, 4, 5, 0, 6, 45)
+		saved := f.w
+		f.w = bitw{}
+		switch {
+		case typ == 1 && codec == "avc":
+			var tol uint64
+			if a.vui && a.hrd {
+				f.u("cpb_removal_delay", int(a.cpbLen)+1)
+				f.u("dpb_output_delay", int(a.dpbLen)+1)
+				tol = a.timeOffsetLen
+			}
+			ps := f.u("pic_struct", 4, 0, 1, 2, 3, 5, 8)
+			n := 3
+			if ps <= 2 {
+				n = 1
+			} else if ps <= 4 {
+				n = 2
+			}
+			for i := 0; i < n && ps <= 8; i++ {
+				if !f.flag("clock_timestamp_flag", 60) {
+					continue
+				}
+				f.u("ct_type", 2)
+				f.flag("nuit_field_based_flag", 50)
+				f.u("counting_type", 5, 0, 1, 4)
+				full := f.flag("full_timestamp_flag", 50)
+				f.flag("discontinuity_flag", 20)
+				f.flag("cnt_dropped_flag", 20)
+				f.u("n_frames", 8, 0, 12, 29)
+				if full {
+					f.u("seconds_value", 6, 0, 30, 59)
+					f.u("minutes_value", 6, 0, 30, 59)
+					f.u("hours_value", 5, 0, 12, 23)
+				} else if f.flag("seconds_flag", 60) {
+					f.u("seconds_value", 6, 0, 30, 59)
+					if f.flag("minutes_flag", 60) {
+						f.u("minutes_value", 6, 0, 30, 59)
+						if f.flag("hours_flag", 60) {
+							f.u("hours_value", 5, 0, 12, 23)
+						}
+					}
+				}
+				if byte(tol) > 0 {
+					f.u("time_offset", int(byte(tol)))
+				}
+			}
+		case typ == 1 && h.vui:
+			if h.ffi {
+				f.u("pic_struct", 4, 0, 1, 7, 12)
+				f.u("source_scan_type", 2)
+				f.flag("duplicate_flag", 20)
+			}
+			if h.cpbDpb {
+				f.u("au_cpb_removal_delay_minus1", int(h.auLen)+1)
+				f.u("pic_dpb_output_delay", int(h.dpbLen)+1)
+				if h.subPic {
+					f.u("pic_dpb_output_du_delay", int(h.duDpbLen)+1)
+					if h.subPicInPT {
+						n := f.ue("num_decoding_units_minus1", 1<<16, 0, 1, 3)
+						common := f.flag("du_common_cpb_removal_delay_flag", 50)
+						if common {
+							f.u("du_common_cpb_removal_delay_increment_minus1", int(h.duIncLen)+1)
+						}
+						for i := 0; i <= capN(uint64(uint32(n))); i++ {
+							f.ue("num_nalus_in_du_minus1", 1<<16, 0, 1)
+							if !common && uint64(i) < uint64(uint32(n)) {
+								f.u("du_cpb_removal_delay_increment_minus1", int(h.duIncLen)+1)
+							}
+						}
+					}
+				}
+			}
+		default:
+			size := map[int]int{136: 8, 137: 24, 144: 4, 4: 12, 5: 20}[typ]
+			if size == 0 {
+				size = f.r.Range(0, 12)
+			}
+			for i := 0; i < size; i++ {
+				f.raw(f.r.U64(), 8)
+			}
+		}
+		if len(f.w.bits)%8 != 0 {
+			f.trailing()
+		}
+		payload := f.w.bits
+		f.w = saved
+		f.u("payload_type", 8, typ)
+		f.u("payload_size", 8, len(payload)/8)
+		if f.room(len(payload)) {
+			f.w.bits = append(f.w.bits, payload...)
+		}
+	}
+	f.raw(0x80, 8)
+}
+
+// genStructSPSAndSEI: len1 SPS[len1] SEI-NALU (the SPS mostly with VUI and HRD, each part in its own mode).
+func genStructSPSAndSEI(r *hx.Rng, codec string) []byte {
+	toolsOn := r.Intn(10) < 8
+	var a avcSPSInfo
+	var h hevcSPSInfo
+	var sps []byte
+	if codec == "avc" {
+		sps, _ = writeUnit(r, pickMode(r, true), toolsOn, unitMaxBits, func(f *fw) { a = synAvcSPS(f, 0) })
+	} else {
+		sps, _ = writeUnit(r, pickMode(r, true), toolsOn, unitMaxBits, func(f *fw) { h = synHevcSPS(f, 0) })
+	}
+	sps = clip255(sps)
+	sei, f := writeUnit(r, pickMode(r, true), toolsOn, 4096, func(f *fw) { synSEI(f, codec, a, h) })
+	lastUnitHostile = f.hostile
+	return append(append([]byte{byte(len(sps))}, sps...), sei...)
+}
+
+func cut1(in []byte) (head, tail []byte) {
+	if len(in) == 0 {
+		return nil, nil
+	}
+	n := int(in[0])
+	in = in[1:]
+	if n > len(in) {
+		n = len(in)
+	}
+	return in[:n:n], in[n:]
+}
+
+// ---------------------------------------------------------------- configuration record -> parameter sets -> slice
+
+var hevcRecHeader = hx.UnHex("0101600000009000000000005df000fcfdf8f800000f")
+
+func be16(n int) []byte { return []byte{byte(n >> 8), byte(n)} }
+
+// genStructConfRecAndSlice: len(2 bytes, big endian) record, then a slice header written against the
+// parameter sets inside the record.
+func genStructConfRecAndSlice(r *hx.Rng, codec string) []byte {
+	toolsOn := r.Intn(10) < 7
+	lenOf := func(b []byte) []byte { // the 16-bit NALU length, rarely off by one
+		n := len(b)
+		if r.Intn(40) == 0 {
+			n += r.Pick(-1, 1)
+		}
+		if n < 0 {
+			n = 0
+		}
+		return be16(n)
+	}
+	var rec, sl []byte
+	if codec == "avc" {
+		var si avcSPSInfo
+		var pi avcPPSInfo
+		sps, _ := writeUnit(r, pickMode(r, true), toolsOn, 4096, func(f *fw) { si = synAvcSPS(f, uint64(r0(f, 0, 0, 0, 1))) })
+		pps, _ := writeUnit(r, pickMode(r, true), toolsOn, 4096, func(f *fw) { pi = synAvcPPS(f, uint64(r0(f, 0, 0, 0, 1, 3)), uint64(si.id), si) })
+		sl, _ = writeUnit(r, pickMode(r, true), toolsOn, 4096, func(f *fw) { synAvcSlice(f, uint64(pi.id), pi, si) })
+		profile := byte(100)
+		if len(sps) > 1 {
+			profile = sps[1]
+		}
+		rec = []byte{1, profile, 0, 30, 0xff, 0xe1}
+		rec = append(append(rec, lenOf(sps)...), sps...)
+		rec = append(rec, 1)
+		rec = append(append(rec, lenOf(pps)...), pps...)
+		if profile != 66 && profile != 77 && profile != 88 && r.Intn(3) != 0 {
+			rec = append(rec, 0xfc|si.chroma&3, 0xf8, 0xf8, 0)
+		}
+	} else {
+		var si hevcSPSInfo
+		var pi hevcPPSInfo
+		sps, _ := writeUnit(r, pickMode(r, true), toolsOn, 4096, func(f *fw) { si = synHevcSPS(f, uint64(r0(f, 0, 0, 0, 1))) })
+		pps, _ := writeUnit(r, pickMode(r, true), toolsOn, 4096, func(f *fw) { pi = synHevcPPS(f, uint64(r0(f, 0, 0, 0, 1, 3)), uint64(si.id)) })
+		sl, _ = writeUnit(r, pickMode(r, true), toolsOn, 4096, func(f *fw) { synHevcSlice(f, uint64(pi.id), pi, si) })
+		rec = append([]byte{}, hevcRecHeader...)
+		vps := hx.UnHex("40010c01ffff016000000300900000030000030078959809")
+		rec = append(rec, 3)
+		for _, a := range []struct {
+			typ  byte
+			nalu []byte
+		}{{0xa0, vps}, {0xa1, sps}, {0xa2, pps}} {
+			rec = append(rec, a.typ, 0, 1)
+			rec = append(append(rec, lenOf(a.nalu)...), a.nalu...)
+		}
+	}
+	if len(rec) > 65535 {
+		rec = rec[:65535]
+	}
+	return append(append(be16(len(rec)), rec...), sl...)
+}
+
+func cut2(in []byte) (head, tail []byte) {
+	if len(in) < 2 {
+		return nil, nil
+	}
+	n := int(binary.BigEndian.Uint16(in))
+	in = in[2:]
+	if n > len(in) {
+		n = len(in)
+	}
+	return in[:n:n], in[n:]
+}
+
+func callAvcSPSAndSEI(in []byte, arg int) (string, func() string) {
+	a, rest := cut1(in)
+	var sps *avc.SPS
+	if s, err := avc.ParseSPSNALUnit(a, true); err == nil {
+		sps = s
+	}
+	msgs, err := avc.ParseSEINalu(rest, sps)
+	sink = useMsgs(msgs)
+	return errClass(err), nil
+}
+
+func callHevcSPSAndSEI(in []byte, arg int) (string, func() string) {
+	a, rest := cut1(in)
+	var sps *hevc.SPS
+	if s, err := hevc.ParseSPSNALUnit(a); err == nil {
+		sps = s
+	}
+	msgs, err := hevc.ParseSEINalu(rest, sps)
+	sink = useMsgs(msgs)
+	return errClass(err), nil
+}
+
+func callAvcDecConfRecAndSlice(in []byte, arg int) (string, func() string) {
+	recBytes, rest := cut2(in)
+	rec, err := avc.DecodeAVCDecConfRec(recBytes)
+	if err != nil {
+		return "err", nil
+	}
+	spsMap := map[uint32]*avc.SPS{}
+	ppsMap := map[uint32]*avc.PPS{}
+	for _, n := range rec.SPSnalus {
+		if s, err := avc.ParseSPSNALUnit(n, true); err == nil && s != nil {
+			spsMap[s.ParameterID] = s
+		}
+	}
+	for _, n := range rec.PPSnalus {
+		if p, err := avc.ParsePPSNALUnit(n, spsMap); err == nil && p != nil {
+			ppsMap[p.PicParameterSetID] = p
+		}
+	}
+	h, err := avc.ParseSliceHeader(rest, spsMap, ppsMap)
+	sink = h
+	return errClass(err), nil
+}
+
+func callHevcDecConfRecAndSlice(in []byte, arg int) (string, func() string) {
+	recBytes, rest := cut2(in)
+	rec, err := hevc.DecodeHEVCDecConfRec(recBytes)
+	if err != nil {
+		return "err", nil
+	}
+	spsMap := map[uint32]*hevc.SPS{}
+	ppsMap := map[uint32]*hevc.PPS{}
+	for _, n := range rec.GetNalusForType(hevc.NALU_SPS) {
+		if s, err := hevc.ParseSPSNALUnit(n); err == nil && s != nil {
+			spsMap[uint32(s.SpsID)] = s
+		}
+	}
+	for _, n := range rec.GetNalusForType(hevc.NALU_PPS) {
+		if p, err := hevc.ParsePPSNALUnit(n, spsMap); err == nil && p != nil {
+			ppsMap[p.PicParameterSetID] = p
+		}
+	}
+	h, err := hevc.ParseSliceHeader(rest, spsMap, ppsMap)
+	sink = h
+	return errClass(err), nil
+}
+
+func init() {
+	register(
+		target{"avc.ParseSPSAndSEI", false, callAvcSPSAndSEI},
+		target{"hevc.ParseSPSAndSEI", false, callHevcSPSAndSEI},
+		target{"avc.DecConfRecAndSlice", false, callAvcDecConfRecAndSlice},
+		target{"hevc.DecConfRecAndSlice", false, callHevcDecConfRecAndSlice},
+	)
+}
+
+func allValid(ms []int) bool {
+	for _, m := range ms {
+		if m != modeValid {
+			return false
+		}
+	}
+	return true
+}
+
+func structStatsExtra(t tally, r *hx.Rng, n int, verbose bool) {
+	for _, x := range []struct {
+		name string
+		gen  func() []byte
+		call func([]byte, int) (string, func() string)
+	}{
+		{"avc.ParseSPSAndSEI", func() []byte { return genStructSPSAndSEI(r, "avc") }, callAvcSPSAndSEI},
+		{"hevc.ParseSPSAndSEI", func() []byte { return genStructSPSAndSEI(r, "hevc") }, callHevcSPSAndSEI},
+		{"avc.DecConfRecAndSlice", func() []byte { return genStructConfRecAndSlice(r, "avc") }, callAvcDecConfRecAndSlice},
+		{"hevc.DecConfRecAndSlice", func() []byte { return genStructConfRecAndSlice(r, "hevc") }, callHevcDecConfRecAndSlice},
+	} {
+		for i := 0; i < n; i++ {
+			lastModes = lastModes[:0]
+			in := x.gen()
+			key := " (some stage not valid)"
+			if allValid(lastModes) {
+				key = " (all stages valid)"
+			}
+			cl := classOf(func() error {
+				c, _ := x.call(in, 0)
+				if c != "ok" {
+					return fmt.Errorf("%s", c)
+				}
+				return nil
+			})
+			t.add(x.name+key, cl)
+			if verbose && cl != 0 && allValid(lastModes) {
+				fmt.Printf("BAD %s %s\n", x.name, hx.Hex(in))
+			}
+		}
+	}
 }
